@@ -4,10 +4,10 @@
 set -u
 P=$1
 W=/tmp/scratch/trypatch.$$
-git -C /repo worktree add -q --detach $W HEAD || exit 2
+git -C /repo worktree add -q --detach $W ${BASE:-HEAD} || exit 2
 trap "git -C /repo worktree remove --force $W" EXIT
 ( cd $W && git apply "$P" ) || { echo "PATCH DOES NOT APPLY"; exit 2; }
-/verif/bin/mosslint -dump -json -repo /repo 2>/dev/null | grep '"verdict":"violated"' | sed 's/.*"key":"\([^"]*\)".*/\1/' | sort > /tmp/scratch/base.$$
+( B=/tmp/scratch/trybase.$$; git -C /repo worktree add -q --detach $B ${BASE:-HEAD}; /verif/bin/mosslint -dump -json -repo $B 2>/dev/null; git -C /repo worktree remove --force $B ) | grep '"verdict":"violated"' | sed 's/.*"key":"\([^"]*\)".*/\1/' | sort > /tmp/scratch/base.$$
 /verif/bin/mosslint -dump -json -repo $W 2>&1 | tee /tmp/scratch/out.$$ | grep '"verdict":"violated"' | sed 's/.*"key":"\([^"]*\)".*/\1/' | sort > /tmp/scratch/mut.$$
 grep CHECK-BROKEN /tmp/scratch/out.$$
 echo "--- new violations:"
